@@ -521,6 +521,15 @@ Error String::_op_vformat(ModifyOp op, const char* fmt, va_list ap) noexcept {
 
   char* p = prepare(op, output_size);
   if (ASMJIT_UNLIKELY(!p)) {
+    // The in-place attempt above has overwritten the buffer from `start_at` on - keep the string well formed.
+    if (remaining_capacity >= 128) {
+      if (op == ModifyOp::kAssign) {
+        clear();
+      }
+      else {
+        data()[start_at] = '\0';
+      }
+    }
     return make_error(Error::kOutOfMemory);
   }
 
